@@ -203,7 +203,7 @@ def work(item):
 
 def all_items():
     items = []
-    n = tier(4, 6)
+    n = tier(4, 10)
     for kind in ("bsc", "bec", "z"):
         for alpha in ("binary", "bipolar"):
             for p in ("sym", 0.0, 1.0):
@@ -232,7 +232,7 @@ def main():
     items = all_items()
     import kaira.channels.digital as D
     ck.encoded(D.BinarySymmetricChannel.forward, D.BinaryErasureChannel.forward, D.BinaryZChannel.forward)
-    ck.bound("inputs", f"n = {tier(4, 6)} symbols (Z channel: <= 5, one path per input pattern), both alphabets, float32, int64, bool and uint8 inputs; p symbolic in [0,1] plus the constants 0 and 1; uniform draws symbolic in [0,1)")
+    ck.bound("inputs", f"n = {tier(4, 10)} symbols (Z channel: <= 5, one path per input pattern), both alphabets, float32, int64, bool and uint8 inputs; p symbolic in [0,1] plus the constants 0 and 1; uniform draws symbolic in [0,1)")
     ck.stub("torch.rand_like -> fresh symbolic reals in [0,1), logged in generation order (the generator itself is trusted to be i.i.d. uniform)")
     ck.assume("'independently with probability p' is decided as: output position i is a function of x_i and of its own draw only, hit exactly when u < p; the empirical rate of >= 10^6 real draws is a statement about torch's RNG (outside the claim)")
     ck.assume("bipolar inputs contain at least one -1 (documented recognition rule); BEC with bipolar input is excluded because the default erasure symbol is -1")
